@@ -10,7 +10,7 @@ from __future__ import annotations
 
 import ast
 
-from ..cfg import CFG
+from ..cfg import CFG, EXIT as EXIT_
 from ..core import AnalysisError, Repo, Report, call_name, calls_in, kwarg, norm, parents_map, walk_local
 from ..dataflow import DefUse
 from ..gamedata import circuit_reach, proto, tile_extent
@@ -62,6 +62,22 @@ def run(repo: Repo, rep: Report, tier: str) -> None:
     ef = eng.methods["_extract_footprints"]
     ceil = any(call_name(c) == "ceil" for c in calls_in(ef.node))
     rep.check(ceil, "C08-R1", "footprints are rounded up to whole tiles", "np.ceil" if ceil else "no ceil", ef.loc())
+
+    # the unchecked fallback placement is never emitted: when every strategy failed an error is reported (which raises) before it is returned
+    opt_m = eng.methods["optimize"]
+    cfg_o = CFG(opt_m.node)
+    fb_rets = [s_ for s_ in cfg_o.stmts() if isinstance(s_, ast.Return) and s_.value is not None and any(call_name(k) == "_fallback_grid_layout" for k in calls_in(s_))]
+    diag_calls = [s_ for s_ in cfg_o.stmts() if isinstance(s_, ast.Expr) and any(call_name(k) == "_diagnose_failure" for k in calls_in(s_))]
+    rep.floor("C08-R1", "returns of the fallback grid placement", len(fb_rets), 1)
+    for r_ in fb_rets:
+        dom_ = any(cfg_o.dominates(d_, r_) for d_ in diag_calls)
+        rep.check(dom_, "C08-R1", "the fallback grid placement (no overlap check) is returned only after the failure was diagnosed", "dominated by _diagnose_failure()" if dom_ else "fallback returned without diagnosing the failure", opt_m.loc(r_))
+    dg = eng.methods["_diagnose_failure"]
+    cfg_d = CFG(dg.node)
+    is_err = lambda n_: isinstance(n_, ast.Expr) and isinstance(n_.value, ast.Call) and isinstance(n_.value.func, ast.Attribute) and n_.value.func.attr == "error" and "diagnostics" in norm(n_.value.func.value)  # noqa: E731
+    escapes_ = cfg_d.reaches_avoiding("ENTRY", {id(EXIT_)}, lambda n_: is_err(n_) or isinstance(n_, ast.Raise))
+    rep.check(not escapes_, "C08-R1", "_diagnose_failure reports an error on every path (with raise_errors the compilation stops; nothing unchecked is emitted)",
+              "every normal exit passes diagnostics.error(...)" if not escapes_ else "a path leaves _diagnose_failure without an error: the overlap-unsafe fallback placement becomes the blueprint", dg.loc())
 
     # ---------------- R2 ---------------------------------------------------------------
     rep.rule("C08-R2", "every literal footprint assigned to a literal prototype is >= the tile extent of the prototype's collision box; "
@@ -171,6 +187,26 @@ def run(repo: Repo, rep: Report, tier: str) -> None:
     gcs = repo.func("ConnectionPlanner._get_connection_side")
     rts = {norm(n.value) for n in walk_local(gcs.node) if isinstance(n, ast.Return) and n.value is not None}
     rep.check({"'output'", "'input'"} <= rts or {"'output' if is_source else 'input'"} <= rts, "C08-R4", "dual-connector entities get input/output sides", str(sorted(rts)), gcs.loc())
+
+    # relay poles have a single connection point: a wire end that can be a relay pole carries no connector side
+    rc = repo.func("ConnectionPlanner._create_relay_chain")
+    crc = canon(rc)
+    n_ends = 0
+    for wcall in calls_in(rc.node, "WireConnection"):
+        for end in ("source", "sink"):
+            ide, side = kwarg(wcall, f"{end}_entity_id"), kwarg(wcall, f"{end}_side")
+            if ide is None or side is None:
+                continue
+            id_alts, side_alts = crc.alts(ide), crc.alts(side)
+            if not any("relay_path" in a for a in id_alts):
+                continue
+            n_ends += 1
+            only_relay = all("relay_path" in a for a in id_alts)
+            ok_side = ("None" in side_alts) and (not only_relay or side_alts == ["None"])
+            rep.check(ok_side, "C08-R4", f"_create_relay_chain: the {end} end of a hop that can be a relay pole has no connector side",
+                      f"{end} in {[a[-30:] for a in id_alts]}, side in {side_alts}" if ok_side else
+                      f"{end} can be a relay pole ({[a[-30:] for a in id_alts]}) but its side is always {side_alts}: the wire is attached to a connector an electric pole does not have", rc.loc(wcall))
+    rep.floor("C08-R4", "relay-chain wire ends that can be poles", n_ends, 3)
 
     # ---------------- R5 ---------------------------------------------------------------
     rep.rule("C08-R5", "axis agreement in occupancy/centre arithmetic of the layout modules: an expression `<pos>[i] +/- <footprint>[j] / 2` must have i == j "
